@@ -31,6 +31,8 @@ class _ObjClasses(dict):
             self["_TrimmedRelease"] = (V._TrimmedRelease, ["_version", "_key"])
             from packaging import tags as T
             self["Tag"] = (T.Tag, ["_interpreter", "_abi", "_platform", "_hash"])
+            from packaging import specifiers as SP
+            self["Specifier"] = (SP.Specifier, ["_spec", "_prereleases"])
 
     def __contains__(self, k):
         self._load()
@@ -47,6 +49,8 @@ _OBJ_CLASSES = _ObjClasses()
 def enc_val(v) -> str:
     if v is None:
         return "N"
+    if v is NotImplemented:
+        return "X"
     if v is True:
         return "T"
     if v is False:
@@ -150,6 +154,9 @@ def _resolve(mod, path):
     import inspect
     obj = importlib.import_module(mod)
     for part in path.split("."):
+        if part.startswith("registry["):
+            obj = obj.registry[{"str": str, "object": object}[part[9:-1]]]
+            continue
         obj = inspect.getattr_static(obj, part) if inspect.isclass(obj) else getattr(obj, part)
     if isinstance(obj, property):
         obj = obj.fget
@@ -343,6 +350,71 @@ def _g_tag_init(rng):
     return [object.__new__(T.Tag), rng.choice(["cp313", "CP39", "py3"]), rng.choice(ABIS), rng.choice(PLATS)]
 
 
+def _g_compare(ops, wild=False):
+    """(self, prospective, spec) for Specifier._compare_*: a spec version, a candidate near it, every spelling"""
+    def g(rng):
+        from packaging import specifiers as SP
+        from packaging import version as V
+        from gen import versions as GV
+        from gen import specrel as R
+        op = rng.choice(ops)
+        _, v, w = R.clause_struct(rng)
+        c = R.candidate_near(rng, v)
+        if op == "~=" and len(v["release"]) < 2:
+            v = dict(v, release=list(v["release"]) + [0])
+        k = rng.random()
+        if op == "===":
+            text = R.arbitrary_text(rng, c)
+        elif k < 0.6:
+            text = GV.normal(v)
+        elif k < 0.9:
+            text = GV.spell(rng, v, ws=False)
+        else:
+            text = GV.malformed(rng, GV.normal(v))              # the method is called directly: any text can arrive
+        if wild and rng.random() < 0.6:
+            bare = dict(v, pre=None, post=None, dev=None, local=None)
+            text = (GV.normal(bare) if rng.random() < 0.7 else GV.spell(rng, bare, ws=False)) + ".*"
+        elif op not in ("==", "!=", "===") and rng.random() < 0.9:
+            text = text.split("+")[0]
+        self_ = SP.Specifier(">=1")
+        return [self_, V.Version(GV.spell(rng, c)), text]
+    return g
+
+
+def _g_version_split(rng):
+    from gen import versions as GV
+    v = GV.struct(rng, maxrel=5)
+    k = rng.random()
+    if k < 0.5:
+        s = GV.normal(v)
+    elif k < 0.75:
+        s = GV.spell(rng, v, ws=False)
+    elif k < 0.85:
+        s = GV.normal(v) + rng.choice(["\n", ".*", ".", "!", "!1", ".rc1\n", "a", ".1a1", ".1c2", ".1rc", "rc", ".b", ".1b2x"])
+    else:
+        s = GV.malformed(rng, GV.normal(v))
+    return [s]
+
+
+def _g_canon_str(rng):
+    return [_g_version_split(rng)[0], rng.random() < 0.5]
+
+
+def _g_canon_obj(rng):
+    return [_version_obj(rng), rng.random() < 0.5]
+
+
+def _g_two_versions(rng):
+    from packaging import version as V
+    from gen import versions as GV
+    a = GV.struct(rng)
+    b = GV.neighbour(rng, a) if rng.random() < 0.7 else GV.struct(rng)
+    other = V.Version(GV.spell(rng, b))
+    if rng.random() < 0.05:
+        other = rng.choice([None, 1, "1.0"])
+    return [V.Version(GV.spell(rng, a)), other]
+
+
 # lean name -> (module, attribute path, argument generator)
 FUNCS = {
     "_parse_letter_version": ("packaging.version", "_parse_letter_version", _g_parse_letter_version),
@@ -369,6 +441,23 @@ FUNCS = {
     "cpython_tags": ("packaging.tags", "cpython_tags", _g_cpython_tags),
     "_cpython_abis": ("packaging.tags", "_cpython_abis", _g_cpython_abis),
     "_get_config_var": ("packaging.tags", "_get_config_var", _g_get_config_var),
+    "Specifier._compare_less_than": ("packaging.specifiers", "Specifier._compare_less_than", _g_compare(["<"])),
+    "Specifier._compare_greater_than": ("packaging.specifiers", "Specifier._compare_greater_than", _g_compare([">"])),
+    "Specifier._compare_less_than_equal": ("packaging.specifiers", "Specifier._compare_less_than_equal", _g_compare(["<="])),
+    "Specifier._compare_greater_than_equal": ("packaging.specifiers", "Specifier._compare_greater_than_equal", _g_compare([">="])),
+    "Specifier._compare_arbitrary": ("packaging.specifiers", "Specifier._compare_arbitrary", _g_compare(["==="])),
+    "Specifier._compare_equal": ("packaging.specifiers", "Specifier._compare_equal", _g_compare(["=="], wild=True)),
+    "Specifier._compare_not_equal": ("packaging.specifiers", "Specifier._compare_not_equal", _g_compare(["!="], wild=True)),
+    "Specifier._compare_compatible": ("packaging.specifiers", "Specifier._compare_compatible", _g_compare(["~="])),
+    "_version_split": ("packaging.specifiers", "_version_split", _g_version_split),
+    "canonicalize_version__str": ("packaging.utils", "canonicalize_version.registry[str]", _g_canon_str),
+    "canonicalize_version__object": ("packaging.utils", "canonicalize_version.registry[object]", _g_canon_obj),
+    "_BaseVersion.__lt__": ("packaging.version", "_BaseVersion.__lt__", _g_two_versions),
+    "_BaseVersion.__le__": ("packaging.version", "_BaseVersion.__le__", _g_two_versions),
+    "_BaseVersion.__gt__": ("packaging.version", "_BaseVersion.__gt__", _g_two_versions),
+    "_BaseVersion.__ge__": ("packaging.version", "_BaseVersion.__ge__", _g_two_versions),
+    "_BaseVersion.__eq__": ("packaging.version", "_BaseVersion.__eq__", _g_two_versions),
+    "Version.is_postrelease": ("packaging.version", "Version.is_postrelease", _g_version_method(0.1)),
 }
 
 
